@@ -46,6 +46,7 @@ func (s *Sim) opConnect(op *Op) {
 	sl.aliasIn = map[uint16]string{}
 	sl.inflight = map[uint16]*OutMsg{}
 	sl.ownQ2 = map[uint16]bool{}
+	sl.otherQ2 = map[uint16]bool{}
 	sl.RecvMax, sl.TAM, sl.MPS, sl.RPI0 = 0, 0, 0, false
 	sl.ExpectClose = false
 	sl.faulted = false
@@ -241,6 +242,15 @@ func (s *Sim) opSubscribe(op *Op) {
 				ids = []int{g.sub.ID}
 			}
 			re := s.owe(sl.Sess, rm, []variant{{QoS: q, SubIDs: ids}}, []bool{true}, true, "C05/retained-not-sent", map[string]string{"rh": fmt.Sprint(g.sub.RH), "shape": filterShape(g.sub.Filter)})
+			if re != nil && g.sub.NL && rm.From == sl.ClientID {
+				// whether No Local also withholds retained messages the client published itself is not fixed by the
+				// statements: delivery is neither required nor forbidden
+				re.Optional = true
+				if re.Out != nil {
+					sl.Sess.removeOut(re.Out)
+				}
+				m.count("retained_own_message_under_no_local")
+			}
 			if re != nil && rm.ExpAt > 0 && m.Now > rm.ExpAt {
 				// past its expiry but no housekeeping run has seen it yet: delivery is neither required nor forbidden
 				re.Optional = true
@@ -438,6 +448,12 @@ func (s *Sim) route(msg *Msg) {
 			m.Retained[msg.Topic] = msg
 			m.count("retained_set")
 		}
+	}
+	if msg.Empty {
+		// an empty payload carries no identifying token: its deliveries cannot be attributed to this publish,
+		// so nothing is owed or checked for it (clients still acknowledge what arrives)
+		m.count("empty_payload_publishes_not_tracked")
+		return
 	}
 	ids := make([]string, 0, len(m.Sessions))
 	for id := range m.Sessions {
@@ -756,6 +772,16 @@ func (s *Sim) onOtherPublish(sl *Slot, rp *eng.RxPacket, topic string) {
 		s.clientSend(sl, &rc.Packet{Type: rc.PUBACK, Version: sl.Ver, PacketID: p.PacketID})
 	} else if p.QoS == 2 {
 		s.clientSend(sl, &rc.Packet{Type: rc.PUBREC, Version: sl.Ver, PacketID: p.PacketID})
+		if sl.otherQ2 == nil {
+			sl.otherQ2 = map[uint16]bool{}
+		}
+		sl.otherQ2[p.PacketID] = true
+		if sl.Sess != nil {
+			if sl.Sess.OtherQ2 == nil {
+				sl.Sess.OtherQ2 = map[uint16]bool{}
+			}
+			sl.Sess.OtherQ2[p.PacketID] = true
+		}
 	}
 }
 
